@@ -314,6 +314,22 @@ func runC16(c *Ctx) {
 				okTop, why = false, "the value returned is not (*s)[len(*s)-1]: "+v.String()
 				continue
 			}
+			// the top exists: the path knows the stack to be non-empty (on an empty stack the answer is (zero, false),
+			// not an index error)
+			{
+				lenP := ToPoly(&Term{Op: "builtin", Sym: "len", Args: []*Term{sl}})
+				nonEmpty := false
+				for _, cd := range p.Conds {
+					if pl, kind, isInt := cd.Rel().IntNorm(); isInt {
+						if kind == "!=" && pl.Equal(canonSign(lenP)) || kind == ">" && pl.Equal(lenP) {
+							nonEmpty = true
+						}
+					}
+				}
+				if !nonEmpty {
+					okEmpty, whyE = false, "a path ("+p.CondString()+") reads the top without knowing that the stack is non-empty"
+				}
+			}
 			if fi == speek {
 				if len(stores) != 0 {
 					okTop, why = false, "Peek stores"
